@@ -14,6 +14,7 @@
 //!   L4|key=a/b|dir=a|ext=.md    a note in D block-referencing K with the url iwe writes: import/export/re-import
 //!   LC|key=a/b|dir=a            completion item offered in a note of D for K
 //!   LX|dir=a                    "Extract section" in a note of D: the reference left behind names the created note
+//!   LR|key=a/b|dir=a|new=z      rename of K (to `new`): the links re-written in a note of D name the note's new key
 
 use crate::core::*;
 use crate::drive::*;
@@ -500,6 +501,62 @@ impl C15 {
     }
 }
 
+impl C15 {
+    /// LR: K is renamed; the note D/n refers to it by a block reference and by an inline link
+    /// (urls correctly relative to D). Every link re-written in D/n must name, from D, the key
+    /// under which the note now exists.
+    fn run_lr(&self, key: &str, dir: &str, new: &str, feats: &[String], fs: &mut Vec<Failure>, tr: &mut u64) -> String {
+        let n = note_in(dir);
+        let u = crate::libspace::rel_url(dir, key);
+        let host = format!("# host\n\n[t]({})\n\nsee [t]({}) here\n", u, u);
+        let lib: HashMap<String, String> = lib_of(&[(&n, host.as_str()), (key, "# target\n")]);
+        let r = guarded(|| {
+            let s = server(&lib, "");
+            s.handle_rename(RenameParams {
+                text_document_position: TextDocumentPositionParams { text_document: TextDocumentIdentifier { uri: uri(&n) }, position: Position::new(2, 1) },
+                new_name: new.to_string(),
+                work_done_progress_params: Default::default(),
+            })
+        });
+        *tr += 1;
+        match r {
+            Err(p) => {
+                fs.push(panic_failure(p, feats, "rename"));
+                "panic".into()
+            }
+            Ok(Err(_)) => "refused".into(),
+            Ok(Ok(None)) => {
+                fs.push(fail("LR", "no-edit", feats, format!("no rename edit on the reference {:?} of {:?}", u, n)));
+                "no-edit".into()
+            }
+            Ok(Ok(Some(edit))) => {
+                let mut lib2: std::collections::BTreeMap<String, String> = lib.iter().map(|(k, v)| (k.clone(), v.clone())).collect();
+                let applied = crate::edits::apply(&mut lib2, &edit);
+                let created: Vec<String> = lib2.keys().filter(|k| !lib.contains_key(*k)).cloned().collect();
+                if created.len() != 1 || !applied.problems.is_empty() || !lib2.contains_key(&n) {
+                    fs.push(fail("LR", "shape", feats, format!("rename of {:?} to {:?} from {:?}: notes afterwards {:?}, problems {:?}", key, new, n, lib2.keys().collect::<Vec<_>>(), applied.problems)));
+                    return "shape".into();
+                }
+                let new_key = created[0].clone();
+                let after = &lib2[&n];
+                let links: Vec<oracle::LinkOcc> = oracle::scan_links(after).into_iter().filter(|l| !oracle::is_external(&l.dest)).collect();
+                if links.len() != 2 {
+                    fs.push(fail("LR", "shape", feats, format!("rename of {:?} to {:?}: {:?} is now {:?} ({} links)", key, new, n, after, links.len())));
+                    return "shape".into();
+                }
+                for l in &links {
+                    let how = if l.alone_in_para { "block" } else { "inline" };
+                    let t = names(dir, &l.dest);
+                    if t.as_deref() != Some(new_key.as_str()) {
+                        fs.push(fail("LR", &format!("{}:{}", how, written_site(&l.dest)), feats, format!("{:?} renamed to {:?}: the {} link of {:?} is re-written as {:?}, which from {:?} names {:?}; text {:?}", key, new_key, how, n, l.dest, dir, t, after)));
+                    }
+                }
+                format!("moved-dir:{}", oracle::dir_of(&new_key) != oracle::dir_of(key))
+            }
+        }
+    }
+}
+
 /// failure site for a url written by iwe that does not name the intended note
 fn written_site(u: &str) -> &'static str {
     let stem = u.strip_suffix(".md").unwrap_or(u);
@@ -525,7 +582,7 @@ impl Engine for C15 {
         "C15"
     }
     fn rule(&self) -> String {
-        "path shapes, exhaustively: every (note key K, linking directory D) over segments {a,b} up to the depth bound (D includes the root) — equal, nested either way, siblings, disjoint — and every link url of <= 4 segments over {a,b,.,..} with/without `.md`, `./` prefix, `.md.md`, from every D. Reference reader (shares no code with iwe): oracle::resolve (split on '/', `.`/`..`, strip one `.md`); a url names a note only if its last segment is a name (an empty url, `.md`, a trailing `.` or `..` name a directory). Laws without expected literals: L1 the url K.to_rel_link_url(D) names K for the reference reader and from_rel_link_url reads it back as K; L2 re-writing a read link from the same directory (to_rel(from_rel(u,D),D)) names the same note as u; L3 from_rel_link_url(u,D) == oracle::resolve(D,u); L2d formatting (Graph::import/export) a note D/n that consists of the block reference `[t](u)` keeps its target (own link scanner + reader) and indexes it as a block reference to that target; L4 a note D/n that block-references K with the url iwe writes (refs_extension \"\" and \".md\") is a reference to K after import (get_block_references_to), its export names K, the re-import still references K, second export == first; LC the completion item offered in D/n for K inserts a link that names K and reads back as K; LX 'Extract section' in D/n leaves a reference that names the created note. Don't-care: urls that climb above the root (all laws), urls that name the root or a directory (L2, L2d; L3 only the root). non-trivial = the case is outside the don't-care zone and a url/key produced by the real code was judged".into()
+        "path shapes, exhaustively: every (note key K, linking directory D) over segments {a,b} up to the depth bound (D includes the root) — equal, nested either way, siblings, disjoint — and every link url of <= 4 segments over {a,b,.,..} with/without `.md`, `./` prefix, `.md.md`, from every D. Reference reader (shares no code with iwe): oracle::resolve (split on '/', `.`/`..`, strip one `.md`); a url names a note only if its last segment is a name (an empty url, `.md`, a trailing `.` or `..` name a directory). Laws without expected literals: L1 the url K.to_rel_link_url(D) names K for the reference reader and from_rel_link_url reads it back as K; L2 re-writing a read link from the same directory (to_rel(from_rel(u,D),D)) names the same note as u; L3 from_rel_link_url(u,D) == oracle::resolve(D,u); L2d formatting (Graph::import/export) a note D/n that consists of the block reference `[t](u)` keeps its target (own link scanner + reader) and indexes it as a block reference to that target; L4 a note D/n that block-references K with the url iwe writes (refs_extension \"\" and \".md\") is a reference to K after import (get_block_references_to), its export names K, the re-import still references K, second export == first; LC the completion item offered in D/n for K inserts a link that names K and reads back as K; LX 'Extract section' in D/n leaves a reference that names the created note; LR after an LSP rename of K (new names `z` and `b/z`) the block reference and the inline link of D/n are re-written so that, from D, they name the key under which the note now exists. Don't-care: urls that climb above the root (all laws), urls that name the root or a directory (L2, L2d; L3 only the root). non-trivial = the case is outside the don't-care zone and a url/key produced by the real code was judged".into()
     }
     fn bound(&self, tier: Tier) -> String {
         let d = depth(tier);
@@ -537,7 +594,7 @@ impl Engine for C15 {
             "two segment names suffice: the path arithmetic under test compares segments only for equality and against `.`/`..`".into(),
             "urls that climb above the library root, and urls that name the root directory itself (empty key), are don't-care; input urls whose last segment is `.`/`..` name a directory, not a note: L3 still compares them, L2/L2d do not judge them".into(),
             "a url *written* by iwe must end in the note's name: the empty url and a bare `..` are judged as not naming the note even though iwe's own reader maps them back".into(),
-            "inline links are never re-written by iwe (their url is kept verbatim); how they are resolved is C05/C06's subject".into(),
+            "inline links are re-written by iwe only on rename (LR); otherwise their url is kept verbatim, and how they are resolved is C05/C06's subject".into(),
             "the `.md` decorations are only applied to urls whose last segment is a name".into(),
             "names that need percent-encoding are C14's subject, not C15's".into(),
         ]
@@ -552,6 +609,14 @@ impl Engine for C15 {
         for k in &keys {
             for d in &dirs {
                 emit(&format!("L1|key={}|dir={}", k, d));
+            }
+        }
+        for k in &keys {
+            for d in &dirs {
+                // new name: plain (stays beside the old note or lands at the root, whichever way the
+                // server reads it) and in a directory of its own
+                emit(&format!("LR|key={}|dir={}|new=z", k, d));
+                emit(&format!("LR|key={}|dir={}|new=b/z", k, d));
             }
         }
         for k in &keys {
@@ -585,7 +650,7 @@ impl Engine for C15 {
     fn features(&self, case: &str) -> Vec<String> {
         let law = case.split('|').next().unwrap_or("");
         match law {
-            "L1" | "L4" | "LC" => {
+            "L1" | "L4" | "LC" | "LR" => {
                 let mut f = pair_features(field(case, "key"), field(case, "dir"));
                 if law == "L4" && !field(case, "ext").is_empty() {
                     f.push("refs-extension".into());
@@ -613,6 +678,7 @@ impl Engine for C15 {
             "L4" => (self.run_l4(field(case, "key"), dir, field(case, "ext"), &feats, &mut fs, &mut tr), true),
             "LC" => (self.run_lc(field(case, "key"), dir, &feats, &mut fs, &mut tr), true),
             "LX" => (self.run_lx(dir, &feats, &mut fs, &mut tr), true),
+            "LR" => (self.run_lr(field(case, "key"), dir, field(case, "new"), &feats, &mut fs, &mut tr), true),
             "L2" => self.run_l2(field(case, "url"), dir, &feats, &mut fs, &mut tr),
             "L3" => self.run_l3(field(case, "url"), dir, &feats, &mut fs, &mut tr),
             "L2d" => self.run_l2d(field(case, "url"), dir, &feats, &mut fs, &mut tr),
